@@ -18,5 +18,9 @@ Problems(o) == CASE Prop = "C24" -> IF Judge24(o) = "ok" THEN {} ELSE {Facts24(o
                  [] Prop = "C32" -> IF Judge32(o) = "ok" THEN {} ELSE {Facts32(o)}
 
 ASSUME \A i \in 1..Len(Obs) : \A p \in Problems(Obs[i]) : PrintT(<<"REJECT", i, ToJson(p)>>)
+\* B-level comparison with the machine's flights: reported as model drift, never as a violation
+ASSUME Prop = "C24" =>
+         \A i \in 1..Len(Obs) : Drift24(Obs[i]) = "ok"
+              \/ PrintT(<<"DRIFT", i, Drift24(Obs[i]), Obs[i].obs.ctypes, Obs[i].obs.stypes>>)
 ASSUME PrintT(<<"JUDGED", Len(Obs)>>)
 =============================================================================
